@@ -337,7 +337,7 @@ theorem storageName_inj {h : List Name} {tc : Name} (hv : validHeader h tc = tru
   unfold validHeader at hv
   simp only [Bool.and_eq_true, Bool.not_eq_true', Bool.or_eq_true, beq_iff_eq, List.contains_eq_mem,
     decide_eq_false_iff_not, decide_eq_true_eq] at hv
-  obtain ⟨⟨⟨_, _⟩, _⟩, ht⟩ := hv
+  obtain ⟨⟨⟨⟨_, _⟩, _⟩, ht⟩, _⟩ := hv
   unfold storageName at e
   by_cases h1 : a = tc <;> by_cases h2 : b = tc
   · rw [h1, h2]
@@ -373,16 +373,37 @@ theorem C04_import_names_distinct (header : List Name) (timeCol : Name) (hv : va
   refine ⟨?_, by simp [storageNames]⟩
   unfold validHeader at hv
   have hd : distinctNames header = true := by
-    simp only [Bool.and_eq_true] at hv; exact hv.1.1.2
+    simp only [Bool.and_eq_true] at hv; exact hv.1.1.1.2
   exact distinct_map_storage (by unfold validHeader; exact hv) header (fun _ hx => hx) hd
 
-theorem C04_import_names_tied : importNamesStoredAsValidated = true ∧ importRejectsEmptyName = true := by decide
+theorem C04_import_names_tied : importNamesStoredAsValidated = true ∧ importRejectsEmptyName = true ∧
+    importRejectsUnderscoreName = true := by decide
+
+/-- since 273e2e1 an import cannot lose a column to the `_` rule of the schema builders either: no
+storage name of an accepted header is `_`-prefixed (such a header is rejected with 400) or empty -/
+theorem C04_import_no_internal_names (header : List Name) (timeCol : Name) (hv : validHeader header timeCol = true) :
+    ∀ n ∈ storageNames header timeCol, isUnderscore n = false ∧ n ≠ [] := by
+  intro n hn
+  unfold storageNames at hn
+  obtain ⟨x, hx, rfl⟩ := List.mem_map.1 hn
+  unfold validHeader at hv
+  have hf : importRejectsUnderscoreName = true := by decide
+  simp only [Bool.and_eq_true, Bool.not_eq_true', hf, Bool.true_and, List.any_eq_false, List.contains_eq_mem,
+    decide_eq_false_iff_not] at hv
+  unfold storageName
+  by_cases h : x == timeCol
+  · simp only [h, ↓reduceIte]; exact ⟨by decide, by decide⟩
+  · simp only [h, Bool.false_eq_true, ↓reduceIte]
+    refine ⟨?_, fun e => hv.1.1.1.1 (e ▸ hx)⟩
+    have := hv.2 x hx
+    simpa using this
 
 /-- non-vacuity: `time, v, " v", " time", " "` is a valid header; its trimmed version is not -/
 example : validHeader [timeName, [118], [32, 118], [32, 116, 105, 109, 101], [32]] timeName = true ∧
     validHeader [timeName, [118], [118]] timeName = false ∧
     validHeader [[116, 115], [32, 116, 105, 109, 101]] [116, 115] = true ∧
-    validHeader [[116, 115], timeName] [116, 115] = false := by decide
+    validHeader [[116, 115], timeName] [116, 115] = false ∧
+    validHeader [timeName, [95, 120]] timeName = false := by decide
 
 /-- non-vacuity: reserved-looking names are stored -/
 example : (lifetime big [reqPlain mN [109, 101, 97, 115, 117, 114, 101, 109, 101, 110, 116] .str t0]).toOption.map
